@@ -726,7 +726,9 @@ class Link(SimComponent):
     def endpoint_down(self):
         """Let the Link know and endpoint has been brought down."""
         if not self.is_up:
-            self.current_load = 0.0
+            # The load is what the link has carried in this timestep; it is kept until pre_timestep resets it. A down link
+            # carries nothing more, and clearing the load here would let a link that comes back up within the same timestep
+            # carry a second bandwidth's worth.
             _LOGGER.debug(f"Link {self} down")
 
     @property
